@@ -258,6 +258,8 @@ class NumInterp(Interp):
             'array': np.array, 'roll': np.roll, 'zeros': np.zeros, 'ones': np.ones, 'eye': np.eye, 'diag': np.diag,
             'sqrt': np.sqrt, 'exp': np.exp, 'kron': np.kron, 'cos': np.cos, 'sin': np.sin, 'conj': np.conj, 'pi': np.pi,
             'complex128': complex, 'complex64': complex, 'float64': float,
+            'sort': np.sort, 'asarray': np.asarray, 'abs': np.abs, 'mod': np.mod, 'arange': np.arange, 'cumprod': np.cumprod, 'hstack': np.hstack,
+            'concatenate': np.concatenate, 'dot': np.dot, 'tan': np.tan, 'arccos': np.arccos, 'arcsin': np.arcsin, 'angle': np.angle, 'real': np.real, 'imag': np.imag,
         }
         import math as _math
         import cmath as _cmath
